@@ -1,3 +1,42 @@
-import EspadaVerif.Model.Range
+/-
+C09 — Parsers are total: any string yields a value or an error, never a panic; every value obtained this
+way can be expanded, formatted, decomposed into rank pairs and handed to the evaluator without panicking.
+
+Strings are arbitrary byte lists here (a superset of valid UTF-8): the byte-offset slices of the model
+panic exactly where Rust's would (non-boundary / out of range).
+-/
+import EspadaVerif.Lemmas.TextDefs
+import EspadaVerif.Props.C08
+
 namespace EspadaVerif.C09
+open EspadaVerif TextDefs
+
+variable {W : Type}
+
+/-- **C09 (parsers).** No input makes any of the six parsers panic. -/
+theorem C09_parse_total (wt : WText W) (s : Bytes) :
+    parseRank s ≠ .panic ∧ parseSuit s ≠ .panic ∧ parseCard s ≠ .panic ∧ parsePair s ≠ .panic
+    ∧ parseToken wt s ≠ .panic ∧ parseRange wt s ≠ .panic := by
+  sorry
+
+/-- every token that parses satisfies the order conditions its expansion relies on, so expanding and printing it
+cannot panic; the expansion holds real combos -/
+theorem C09_use_total (wt : WText W) (s : Bytes) (t : Token W) (h : parseToken wt s = .ok t) :
+    ∃ es, t.expand = .ok es ∧ (∀ e ∈ es, ComboOk e.1 ∧ e.2 = t.prob) := by
+  sorry
+
+/-- formatting and decomposing never panic, for any range whatsoever -/
+theorem C09_range_views_total (wt : WText W) (r : HandRange W) :
+    (∃ l, rankPairs wt r = .ok l) ∧ (∃ o, orphans wt r = .ok o) ∧ (∃ txt, showRange wt r = .ok txt) := by
+  sorry
+
+/-- **C09 (ranges).** A parsed range can be formatted, decomposed and evaluated on any flop without panicking. -/
+theorem C09_range_total (wt : WText W) (ops : WOps W) (s : Bytes) (r : HandRange W) (h : parseRange wt s = .ok r)
+    (flop : List Card) (hf : flop.length = 3 ∧ flop.Nodup ∧ ∀ c ∈ flop, c.valid = true) (others : List (List (Combo × W)))
+    (ho : C02.WfInput flop others) (a b : Nat × Nat) (hs : C02.ValidScope a b) :
+    (∃ l, rankPairs wt r = .ok l) ∧ (∃ o, orphans wt r = .ok o) ∧ (∃ txt, showRange wt r = .ok txt)
+    ∧ ∃ s₀ : IterState W, (C02.mkEvaluator flop (HandRange.contents r :: others) a b).intoIter = .ok s₀ ∧
+        ∀ limit, ∃ sds s', drainFuel ops limit s₀ [] = .ok (sds, s') := by
+  sorry
+
 end EspadaVerif.C09
